@@ -153,6 +153,12 @@ def Loc.len (l : Loc) : Nat := (l.last - l.first + 1).toNat
 def InRange (start : Int) (n : Nat) (l : Loc) : Prop :=
   start ≤ l.first ∧ l.first ≤ l.last ∧ l.last < start + n
 
+instance (start : Int) (n : Nat) (l : Loc) : Decidable (InRange start n l) := by
+  unfold InRange; infer_instance
+instance (f : Feature) : Decidable f.WF := by unfold Feature.WF; infer_instance
+instance (a : Annot) : Decidable (Annot.WF a) := by unfold Annot.WF; infer_instance
+instance (xs : List Nat) : Decidable (ValidSeq xs) := by unfold ValidSeq; infer_instance
+
 theorem locSub_inRange (s : ASeq) (l : Loc) (h : InRange s.start s.seq.length l) :
     locSub s l = (s.seq.drop (idx s.start l)).take l.len := by
   unfold InRange at h
@@ -245,6 +251,8 @@ def total (ls : List Loc) : Nat := (ls.map Loc.len).sum
 
 /-- Two locations share no base. -/
 def Disjoint (a b : Loc) : Prop := a.last < b.first ∨ b.last < a.first
+
+instance (a b : Loc) : Decidable (Disjoint a b) := by unfold Disjoint; infer_instance
 
 theorem Disjoint.symm {a b : Loc} (h : Disjoint a b) : Disjoint b a := by
   unfold Disjoint at *; omega
